@@ -18,8 +18,8 @@ From Coq Require Import List ZArith String Ascii Bool.
 Import ListNotations.
 Local Open Scope string_scope.
 
-Definition key := string.
-Definition path := list key.
+Notation key := string (only parsing).
+Notation path := (list string) (only parsing).
 
 Inductive value : Type := VNum (n : Z) | VStr (s : string).
 Inductive tree : Type := Leaf (v : value) | Obj (kvs : list (key * tree)).
